@@ -155,6 +155,17 @@ def run(ctx):
             want = ctx.spec(fi, 'self.fs[LO:HI]', env={'LO': lo, 'HI': hi})
             ctx.formula('AGREE', f'[{tag}] the frequencies evaluated are those of the written columns', fi, rf[0].data['value'], want,
                         node=rf[0].node)
+            # with frequency sub-sampling the grid must still be anchored on (and span) exactly the written columns
+            r2, I2 = ctx.run(fi, args={'bounding_f_range': sym('BFR') if bounded else NONE, 'bp_profile': NONE,
+                                       'integrate_path': FALSE, 'integrate_t_profile': FALSE, 'integrate_f_profile': TRUE,
+                                       'doppler_smearing': FALSE}, no_inline=(FR + 'get_index',))
+            mg = [e for e in I2.events if e.kind == 'call' and e.data.get('name') == 'numpy.meshgrid' and e.func.short == fi.short]
+            ctx.require(mg, 'add_signal: the frequency/time mesh (np.meshgrid) was not found')
+            want2 = ctx.spec(fi, 'np.linspace(self.fs[LO:HI][0], self.fs[LO:HI][0] + len(self.fs[LO:HI]) * self.df, '
+                                 'len(self.fs[LO:HI]) * f_subsamples, endpoint=False)', env={'LO': lo, 'HI': hi})
+            ctx.formula('AGREE', f'[{tag}, integrate_f_profile] the sub-sampled frequencies start at the first written column and span '
+                        'exactly the written columns', fi, mg[0].data['args'][0], want2, node=mg[0].node,
+                        construct='np.meshgrid(restricted_fs, ...) [sub-sampled grid]')
         ctx.clause = 'D3'
     T.SYMKIND.clear()
 
